@@ -448,12 +448,13 @@ structure RegionNF (s : St) (a : Nat) (items : List SrcItem) (len : Option Nat) 
   objs : ∀ i bs, CItem.obj i bs ∈ sgItems sg → CObjOk s.seqs i bs
   nucs : ∀ p, CItem.nuc p ∈ sgItems sg → ∃ text, SrcItem.nuc text ∈ items ∧
     (p = parseQuoted text ∨ ∃ x, p = explicit x (parseQuoted text))
+  shape : SgShape a cs len sg
 
 theorem region_nf {s : St} {a : Nat} (hent : ∀ e ∈ s.seqs, EntryWF s.seqs e) {items : List SrcItem}
     {len : Option Nat} {cs : List CItem} {b : Built}
     (hc : cleanConst s items = .ok cs) (hb : buildSuper a cs len = .ok b) : ∃ sg, RegionNF s a items len cs b sg := by
-  obtain ⟨sg, nf, hobj, hnuc⟩ := buildSuper_nf hb
-  refine ⟨sg, hc, hb, nf, fun i bs h => cleanConst_ok hent hc i bs (hobj i bs h), ?_⟩
+  obtain ⟨sg, nf, hobj, hnuc, hshape⟩ := buildSuper_nf hb
+  refine ⟨sg, hc, hb, nf, fun i bs h => cleanConst_ok hent hc i bs (hobj i bs h), ?_, hshape⟩
   intro p hp
   rcases hnuc p hp with h | ⟨w, x, hw, rfl⟩
   · obtain ⟨t, ht, rfl⟩ := cleanConst_nucs hc p h
